@@ -222,7 +222,17 @@ fn(H2 + "._close_stream", params={"stream_id": "int"}, inline=True, props=("C04"
 # raised into stream_send, which swallows the ProtocolError family (stream ids exhausted)
 fn(H2 + "._create_server_push", params={"stream_id": "int", "path": "bstr", "headers": "hdrs"}, task="app",
    raises={"h2.ProtocolError": None}, props=("C04",))
-fn(H2 + ".initiate", params={"headers": "opt hdrs", "settings": "opt str"}, task="reader", props=("C04", "C13"))
+fn(H2 + ".initiate", params={"headers": "opt hdrs", "settings": "opt str"}, task="reader",
+   # what the wrapper hands over on an h2c upgrade: the request's headers together with the value of
+   # its HTTP2-Settings header, '' when there is none (H2CProtocolRequiredError.__init__)
+   requires=[("initiate.pre.h2c-has-settings", "implies(headers is not None, settings is not None)")],
+   # C13 "answered 101 and then served as HTTP/2 stream 1": a connection that continues an h2c
+   # upgrade is started in h2's upgrade mode (which is what creates stream 1) whatever the
+   # HTTP2-Settings header was -- absent and empty included; the plain start is for connections
+   # that carry no upgrade request.  (Stated at the call: with the installed h2 the upgrade path
+   # never returns normally, findings F13 / F13b.)
+   model_opts={"call_requires": {"H2Connection.initiate_connection": [("C13.h2c.upgrade-connection", "headers is None", "C13")]}},
+   props=("C04", "C13"))
 fn(H2 + ".idle", params={}, returns="bool", modifies=[], props=("C07",))
 
 fn(H2 + ".__init__", inline=True,
